@@ -284,50 +284,53 @@ Record tcfg := {
   t_all : string; t_group : string; t_single : string;   (* RPC method names *)
   t_extra : list arg;                                     (* signal: the signal name *)
   t_table : list (Z * wording);                           (* _startresult/_signalresult/_clearresult *)
+  t_default : string * string * string;                   (* the chain's fall-through wording *)
   t_success : string;                                     (* `success` of _signalresult *)
   t_single_ok : string;                                   (* '%s: <word>' printed when the single call returns *)
   t_ign_all : option Z; t_ign_group : option Z; t_ign_single : option Z;
   t_has_group : bool;                                     (* do_clear has no group form *)
-  t_gbad_exit : Z;                                        (* group call faults with BAD_NAME *)
-  t_gother_exit : option Z                                (* exitstatus set before re-raising another fault *)
+  t_gbad_exit : Z                                         (* group call faults with BAD_NAME; any other
+                                                             fault of a group call: GENERIC *)
 }.
 
 Definition nth_ign (l : list (option Z)) (i : nat) : option Z := nth i l None.
 
 Definition cfg_start : tcfg := {|
   t_all := "startAllProcesses"; t_group := "startProcessGroup"; t_single := "startProcess";
-  t_extra := []; t_table := startresult_table; t_success := ""; t_single_ok := "started";
+  t_extra := []; t_table := startresult_table; t_default := startresult_default; t_success := ""; t_single_ok := "started";
   t_ign_all := nth_ign ignored_start 0; t_ign_group := nth_ign ignored_start 1;
   t_ign_single := nth_ign ignored_start 2; t_has_group := true;
-  t_gbad_exit := LSBInit_INVALID_ARGS; t_gother_exit := Some LSBInit_GENERIC |}.
+  t_gbad_exit := LSBInit_INVALID_ARGS |}.
 Definition cfg_stop : tcfg := {|
   t_all := "stopAllProcesses"; t_group := "stopProcessGroup"; t_single := "stopProcess";
-  t_extra := []; t_table := signalresult_table; t_success := stop_success; t_single_ok := "stopped";
+  t_extra := []; t_table := signalresult_table; t_default := signalresult_default; t_success := stop_success; t_single_ok := "stopped";
   t_ign_all := nth_ign ignored_stop 0; t_ign_group := nth_ign ignored_stop 1;
   t_ign_single := nth_ign ignored_stop 2; t_has_group := true;
-  t_gbad_exit := LSBInit_GENERIC; t_gother_exit := Some LSBInit_GENERIC |}.
+  t_gbad_exit := LSBInit_GENERIC |}.
 Definition cfg_signal (sig : string) : tcfg := {|
   t_all := "signalAllProcesses"; t_group := "signalProcessGroup"; t_single := "signalProcess";
-  t_extra := [AS sig]; t_table := signalresult_table; t_success := signal_success;
+  t_extra := [AS sig]; t_table := signalresult_table; t_default := signalresult_default;
+  t_success := signal_success;
   t_single_ok := "signalled";
   t_ign_all := nth_ign ignored_signal 0; t_ign_group := nth_ign ignored_signal 1;
   t_ign_single := nth_ign ignored_signal 2; t_has_group := true;
-  t_gbad_exit := LSBInit_GENERIC; t_gother_exit := None |}.
+  t_gbad_exit := LSBInit_GENERIC |}.
 Definition cfg_clear : tcfg := {|
   t_all := "clearAllProcessLogs"; t_group := ""; t_single := "clearProcessLogs";
-  t_extra := []; t_table := clearresult_table; t_success := ""; t_single_ok := "cleared";
+  t_extra := []; t_table := clearresult_table; t_default := clearresult_default; t_success := ""; t_single_ok := "cleared";
   t_ign_all := nth_ign ignored_clear 0; t_ign_group := None;
   t_ign_single := nth_ign ignored_clear 1; t_has_group := false;
-  t_gbad_exit := LSBInit_GENERIC; t_gother_exit := None |}.
+  t_gbad_exit := LSBInit_GENERIC |}.
 
 (* _startresult / _signalresult / _clearresult on (namespec, status, description) *)
-Definition result_text (c : tcfg) (name : string) (code : Z) (desc : string) : string + exn :=
+Definition result_text (c : tcfg) (name : string) (code : Z) (desc : string) : string :=
   match lookup code (t_table c) with
-  | Some (WErr what) => inl (name ++ ": ERROR (" ++ what ++ ")")
-  | Some (WOk word) => inl (name ++ ": " ++ word)
-  | Some WSuccessArg => inl (name ++ ": " ++ t_success c)
-  | Some WFaultString => inl desc
-  | None => inr (XValue ("Unknown result code " ++ dec code ++ " for " ++ name))
+  | Some (WErr what) => name ++ ": ERROR (" ++ what ++ ")"
+  | Some (WOk word) => name ++ ": " ++ word
+  | Some WSuccessArg => name ++ ": " ++ t_success c
+  | Some WFaultString => desc
+  | None => let '(p0, p1, p2) := t_default c in
+            name ++ ": ERROR (" ++ (p0 ++ dec code ++ p1 ++ desc ++ p2) ++ ")"
   end.
 
 (* for result in results: output(_xresult(result)); set_exitstatus_from_xmlrpc_fault(...) *)
@@ -335,10 +338,9 @@ Fixpoint results_loop (c : tcfg) (ign : option Z) (rs : list presult) (s : st) :
   match rs with
   | [] => Ok tt s
   | r :: rs' =>
-    match result_text c (make_namespec (r_group r) (r_name r)) (r_status r) (r_desc r) with
-    | inl t => results_loop c ign rs' (set_exit_fault (r_status r) ign (say t s))
-    | inr e => Exn e s
-    end
+    results_loop c ign rs'
+      (set_exit_fault (r_status r) ign
+         (say (result_text c (make_namespec (r_group r) (r_name r)) (r_status r) (r_desc r)) s))
   end.
 
 Definition is_none {A} (o : option A) : bool := match o with None => true | Some _ => false end.
@@ -353,18 +355,14 @@ Definition target_step (c : tcfg) (n : string) (s : st) : res unit :=
     | Exn (XFault code fs) s1 =>
       if code =? F_BAD_NAME
       then Ok tt (setex (t_gbad_exit c) (say (g ++ ": ERROR (no such group)") s1))
-      else Exn (XFault code fs)
-               (match t_gother_exit c with Some e => setex e s1 | None => s1 end)
+      else Ok tt (setex LSBInit_GENERIC (say (g ++ ": ERROR (" ++ fs ++ ")") s1))
     | Exn e s1 => Exn e s1
     end
   else
     match rpc (t_single c) (AS n :: t_extra c) s with
     | Ok _ s1 => Ok tt (say (make_namespec_o g po ++ ": " ++ t_single_ok c) s1)
     | Exn (XFault code fs) s1 =>
-      match result_text c (make_namespec_o g po) code fs with
-      | inl t => Ok tt (set_exit_fault code (t_ign_single c) (say t s1))
-      | inr e => Exn e s1
-      end
+      Ok tt (set_exit_fault code (t_ign_single c) (say (result_text c (make_namespec_o g po) code fs) s1))
     | Exn e s1 => Exn e s1
     end.
 
@@ -885,14 +883,14 @@ Definition net (r : res unit) : st :=
   | Exn x s => setex LSBInit_GENERIC (outp (LErr (exn_cls x) (exn_str x)) s)
   end.
 
-(* try: try: return do_func(arg) except ProtocolError ... ; do_func(arg) except Exception: ...
-   with options.interactive false *)
+(* try: try: return do_func(arg) except ProtocolError as e: (401: notice, GENERIC;
+   otherwise GENERIC and re-raise) except Exception: ...   with options.interactive false *)
 Definition guarded (f : st -> res unit) (s : st) : st :=
   match f s with
   | Ok _ s1 => s1
   | Exn (XProto c u m) s1 =>
     if c =? 401
-    then net (f (setex LSBInit_GENERIC (say "Server requires authentication" s1)))
+    then setex LSBInit_GENERIC (say "Server requires authentication" s1)
     else net (Exn (XProto c u m) (setex LSBInit_GENERIC s1))
   | Exn x s1 => net (Exn x s1)
   end.
